@@ -119,8 +119,9 @@ class Ldm:
         self.service = Obj(scls, dict(ldm_maintenance=self.maint, data_provider_its_aid=self.providers, data_consumer_its_aid=self.consumers,
                                       subscriptions=self.subscriptions, last_checked_subscriptions_time=self.last_checked, _lock=threading.RLock(),
                                       last_subscription_time=0.0, lock=threading.Lock()))
-        self.if3 = Obj(InterfaceLDM3, dict(logging=logger(I), ldm_service=self.service))
-        self.if4 = Obj(InterfaceLDM4, dict(logging=logger(I), ldm_service=self.service))
+        # fields as the constructors set them (the deregistration lock only exists on trees that contain the C16 repair)
+        self.if3 = Obj(InterfaceLDM3, dict(logging=logger(I), ldm_service=self.service, _deregistration_lock=threading.Lock()))
+        self.if4 = Obj(InterfaceLDM4, dict(logging=logger(I), ldm_service=self.service, _deregistration_lock=threading.Lock()))
         self.n0_store = len(self.store.log)
         self.n0_prov = len(self.providers.log)
         self.n0_cons = len(self.consumers.log)
